@@ -122,8 +122,8 @@ def run(prog: Program, res: Result, tier: str) -> None:
             and "return (BO_matrix, charges, unpaired_electrons)" in t:
         res.ok("R-BO-WRITES", inst, top.loc())
     else:
-        res.bad("R-BO-WRITES", "connectivity2bond_orders plumbing", top.loc(),
-                f"{inst}: pattern not found", instance=inst)
+        res.unrecognised("R-BO-WRITES", inst, top.loc(),
+                         "integer copy / _AC2BO call / return not recognised")
     # pairs --------------------------------------------------------------------
     gb = prog.fn(f"{MOD}:_get_bonds")
     apps = [n for n in ast.walk(gb.node) if isinstance(n, ast.Call)
@@ -148,8 +148,8 @@ def run(prog: Program, res: Result, tier: str) -> None:
             "itertools.combinations(bonds," in ut:
         res.ok("R-BO-PAIRS", inst, ua.loc())
     else:
-        res.bad("R-BO-PAIRS", "_get_UA_pairs source", ua.loc(),
-                f"{inst}: not found", instance=inst)
+        res.unrecognised("R-BO-PAIRS", inst, ua.loc(),
+                         "bonds = _get_bonds(UA, AC) / combinations not found")
     for fname in ("_AC2BO", "_get_BO"):
         fi = prog.fn(f"{MOD}:{fname}")
         du = DefUse(fi.node)
@@ -250,5 +250,5 @@ def check_dict_dir(prog: Program, res: Result) -> None:
             and "idx_map_num_dict[atom_index] = atom" in t:
         res.ok("R-DICT-DIR", inst, mk.loc())
     else:
-        res.bad("R-DICT-DIR", "mol_graph_to_rdmol atom order", mk.loc(),
-                f"{inst}: not found", instance=inst)
+        res.unrecognised("R-DICT-DIR", inst, mk.loc(),
+                         "atom creation loop not recognised")
